@@ -116,6 +116,11 @@ def enabled(state, maxhops=3):
                 n[s] = Strm('NEWRESOLVE', 0, False)
                 out.append(('S%d-NEWRESOLVE' % s, 'STREAM', stream_line(s, 'NEWRESOLVE', 0, '%s:0' % TARGET[s][0], 'PURPOSE=DNS_REQUEST'), (circs, n)))
             continue
+        if cur.state == 'GONE':
+            n = dict(strms)
+            del n[s]
+            out.append(('S%d-CLOSED-after-FAILED' % s, 'STREAM', stream_line(s, 'CLOSED', 0, tgt(s, cur.remapped), 'REASON=TIMEOUT'), (circs, n)))
+            continue
         on = cur.circ
         # attach: SENTCONNECT on a BUILT circuit while unattached
         if cur.state in ('NEW', 'DETACHED', 'NEWRESOLVE', 'REMAP') and on == 0:
@@ -135,7 +140,10 @@ def enabled(state, maxhops=3):
         n = dict(strms)
         del n[s]
         out.append(('S%d-CLOSED' % s, 'STREAM', stream_line(s, 'CLOSED', abs(on), tgt(s, cur.remapped), 'REASON=DONE'), (circs, n)))
-        out.append(('S%d-FAILED' % s, 'STREAM', stream_line(s, 'FAILED', abs(on), tgt(s, cur.remapped), 'REASON=TIMEOUT REMOTE_REASON=MISC'), (circs, n)))
+        # Tor reports a failed stream FAILED and then also CLOSED: after FAILED the stream is gone, but one more event
+        # (CLOSED) for that id is still owed - a 'GONE' placeholder that is not a live stream
+        out.append(('S%d-FAILED' % s, 'STREAM', stream_line(s, 'FAILED', abs(on), tgt(s, cur.remapped), 'REASON=TIMEOUT REMOTE_REASON=MISC'),
+                    (circs, _set(strms, s, Strm('GONE', 0, cur.remapped)))))
     return out
 
 
@@ -174,9 +182,15 @@ def snapshot(state):
     cl = [circ_line(c, v.state, v.hops, purp=v.purp) for c, v in sorted(circs.items())]
     sl = []
     for s, v in sorted(strms.items()):
+        if v.state == 'GONE':
+            continue
         on = v.circ if v.circ > 0 else 0
         sl.append(stream_line(s, v.state, on, tgt(s, v.remapped)))
     return cl, sl
+
+
+def live_streams(state):
+    return dict((k, v) for k, v in state[1].items() if v.state != 'GONE')
 
 
 def snapshot_consistent(state):
